@@ -19,6 +19,9 @@ LEVEL_TEXT = ("static: decides the structural preconditions of the round trip fo
 # fifth-round additions
 TECHNIQUE += "; " + 'induction-variable shape of the OPT lookup, sibling agreement of the question-count guards of parser and writer, forward (value NULL?, length 0?) analysis of the option setter'
 LEVEL_TEXT += " " + '(OPTSCAN) the OPT lookup walks the whole additional section; (QDCOUNT) the writer fails for a question count the parser rejects; (OPTLEN) an option cannot be stored with a length and no value.'
+# sixth-round additions
+TECHNIQUE += "; " + 'sibling agreement on the empty CAA value (parser guard vs forward analysis of the writer)'
+LEVEL_TEXT += " " + '(CAAVAL) the writer cannot finish without failing on an empty CAA value while the parser rejects one.'
 LEVEL_NOTE = "trusts clang CFG + extractor; equality of re-parsed field values for all inputs needs execution and is outside this family"
 DESIGN_REF = "DESIGN.md §6/C03"
 EXPLANATION = LEVEL_TEXT
@@ -733,3 +736,4 @@ def run(prog, R, tier):
     codecrules.r_optscan(prog, R, "R-C03-OPTSCAN")
     codecrules.r_qdcount(prog, R, "R-C03-QDCOUNT")
     codecrules.r_optlen(prog, R, "R-C03-OPTLEN")
+    codecrules.r_caaval(prog, R, "R-C03-CAAVAL")
